@@ -143,6 +143,12 @@ func (r *FileRestorer) RestoreFile(file *dst.File) (*ast.File, error) {
 		f.Comments = append(f.Comments, cg)
 	}
 
+	if len(r.lines) > 1 && r.lines[1] == r.lines[0] {
+		// a newline decoration before anything else in the file starts a line at offset 0, where
+		// the first line starts already: the line table must be strictly increasing
+		r.lines = r.lines[1:]
+	}
+
 	ff := r.Fset.AddFile(r.Name, r.base, r.fileSize())
 	if !ff.SetLines(r.lines) {
 		panic("ff.SetLines failed")
